@@ -220,6 +220,11 @@ def pathsMeaning (cfg : Sites) (sch : Schema) (d : Ty) : Ft → List Bytes → R
 
 def expandAll (ts : List ATree) : List APath := ts.flatMap ATree.expand
 
+/-- the meanings of the path strings given to `NewFieldMask(desc, paths...)` -/
+def meaning (cfg : Sites) (sch : Schema) (desc : Ty) (paths : List Bytes) : Res (List ATree) := do
+  let d ← liftO (sch.unwrap desc)
+  pathsMeaning cfg sch d .invalid paths
+
 
 /-! ## representation invariant (proofs only) -/
 
